@@ -28,10 +28,85 @@ type unitCase struct {
 	LengthBefore   int            `json:"length_before"`
 	LengthAfter    int            `json:"length_after"`
 	EmptyLayer     int            `json:"empty_layer"` // -1: none between 0 and the maximum
+	Panic          string         `json:"panic,omitempty"`
+}
+
+// a cyclic core with a fringe of sources and sinks: entry nodes that point only at terminal nodes or at the
+// core, terminal nodes fed from the core; connected, no self-loops
+func genFringe(r *Rng) [][]string {
+	var es []edgeI
+	n := 0
+	cores := 1 + r.Intn(2)
+	var coreNodes []int
+	for c := 0; c < cores; c++ {
+		k := 2 + r.Intn(4)
+		first := n
+		for i := 0; i < k; i++ {
+			es = append(es, edgeI{n + i, first + (i+1)%k})
+		}
+		for i := 0; i < k; i++ {
+			coreNodes = append(coreNodes, n+i)
+		}
+		n += k
+		if c > 0 {
+			es = append(es, edgeI{coreNodes[r.Intn(len(coreNodes)-k)], first + r.Intn(k)})
+		}
+	}
+	for ch := r.Intn(3); ch > 0; ch-- {
+		a, b := coreNodes[r.Intn(len(coreNodes))], coreNodes[r.Intn(len(coreNodes))]
+		if a != b {
+			es = append(es, edgeI{a, b})
+		}
+	}
+	sinks := 1 + r.Intn(3)
+	var sinkNodes []int
+	for i := 0; i < sinks; i++ {
+		es = append(es, edgeI{coreNodes[r.Intn(len(coreNodes))], n})
+		sinkNodes = append(sinkNodes, n)
+		n++
+	}
+	for src := r.Intn(5); src > 0; src-- {
+		targets := 1 + r.Intn(2)
+		for t := 0; t < targets; t++ {
+			if r.Bool(75) {
+				es = append(es, edgeI{n, sinkNodes[r.Intn(len(sinkNodes))]})
+			} else {
+				es = append(es, edgeI{n, coreNodes[r.Intn(len(coreNodes))]})
+			}
+		}
+		n++
+	}
+	perm := r.Perm(len(es))
+	out := make([]edgeI, len(es))
+	for i, j := range perm {
+		out[i] = es[j]
+	}
+	return toStrings(out, nid)
 }
 
 // random DAG with a random FEASIBLE layering that has slack: layer = 1 + max(pred) + extra
 func genUnitCase(r *Rng, fn string) unitCase {
+	if fn == "p1greedy" || fn == "p1dfs" {
+		for {
+			var edges [][]string
+			if r.Bool(50) {
+				edges = genFringe(r)
+			} else {
+				kinds := []string{"cyclic", "multi", "dense", "cycle", "dag", "multidag"}
+				es, _ := genGraph(r, kinds[r.Intn(len(kinds))], 3+r.Intn(9))
+				var out []edgeI
+				for _, e := range es {
+					if e[0] != e[1] {
+						out = append(out, e)
+					}
+				}
+				edges = toStrings(out, nid)
+			}
+			if _, k := inputComponents(Case{Edges: edges}); k == 1 && len(edges) > 0 {
+				return unitCase{Fn: fn, Edges: edges, Layers: map[string]int{}}
+			}
+		}
+	}
 	if fn == "ns" {
 		kinds := []string{"dag", "multidag", "dense", "slack", "layered", "longdag", "dense", "multidag"}
 		for {
@@ -107,7 +182,7 @@ func genUnitCase(r *Rng, fn string) unitCase {
 
 func runUnit(fs *flag.FlagSet, prop string, seed uint64, n int, outDir, file string) int {
 	fn := prop // -prop carries the function name
-	code := map[string]int{"vbalance": 1, "normalize": 2, "ns": 3}[fn]
+	code := map[string]int{"vbalance": 1, "normalize": 2, "ns": 3, "p1greedy": 4, "p1dfs": 5}[fn]
 	if code == 0 {
 		fmt.Fprintln(os.Stderr, "unknown unit function", fn)
 		return 2
@@ -135,7 +210,20 @@ func runUnit(fs *flag.FlagSet, prop string, seed uint64, n int, outDir, file str
 	for i := 0; i < n; i++ {
 		c := genUnitCase(r, fn)
 		cases = append(cases, c)
-		b, a := autog.VerifUnit(fn, graph.EdgeSlice(c.Edges), c.Layers)
+		var b, a autog.VerifSnap
+		func() {
+			defer func() {
+				if rec := recover(); rec != nil {
+					c.Panic = fmt.Sprint(rec)
+				}
+			}()
+			b, a = autog.VerifUnit(fn, graph.EdgeSlice(c.Edges), c.Layers)
+		}()
+		if c.Panic != "" {
+			c.EmptyLayer = -1
+			cases[len(cases)-1] = c
+			continue
+		}
 		c.After = map[string]int{}
 		maxl, minl := -1<<30, 1<<30
 		used := map[int]bool{}
